@@ -8,6 +8,14 @@
 // A request that is neither parked nor finished is reported `blocked` once its goroutine sits in
 // sync.(*Mutex).Lock inside the handler.
 //
+// Leadership: `reset 2` sequences run on TWO in-process servers sharing one etcd; every request goes to the
+// current leader and `lead m` moves the leadership (ResignEtcdLeader), so that what one leader acknowledged
+// is checked against what the next one stores and answers.
+//
+// Every wait of the harness is bounded: a synchronous handler call that ends up in a mutex is reported
+// `blocked`, anything that does not settle in a few seconds is reported `stuck`, and a wall-clock budget
+// (-maxsec) ends the run with the trace written so far.
+//
 // Service safe points: the handler takes `now` from the TSO; the harness moves the TSO (forward only)
 // to base+<now> with the allocator's own SetTSO, far ahead of the wall clock, so that `now` is an
 // input of the op and never a wall-clock value.
@@ -20,8 +28,9 @@ import (
 	"flag"
 	"fmt"
 	"math"
+	"os"
 	"path"
-	"sort"
+	"runtime"
 	"strconv"
 	"strings"
 	"sync"
@@ -30,6 +39,7 @@ import (
 	"github.com/pingcap/kvproto/pkg/metapb"
 	"github.com/pingcap/kvproto/pkg/pdpb"
 	"github.com/tikv/pd/pkg/tsoutil"
+	"github.com/tikv/pd/server"
 	"github.com/tikv/pd/server/core"
 	"github.com/tikv/pd/server/kv"
 	"github.com/tikv/pd/server/tso"
@@ -60,6 +70,8 @@ type req struct {
 	release chan string
 	done    chan string
 	result  string
+	// service requests: the answer has been handed to an op line already
+	reported bool
 }
 
 func (r *req) get() string { r.mu.Lock(); defer r.mu.Unlock(); return r.state }
@@ -73,22 +85,35 @@ func (r *req) set(s string) {
 }
 func (r *req) snap() (string, int) { r.mu.Lock(); defer r.mu.Unlock(); return r.state, r.gen }
 
-// gateBase wraps the server's kv.Base.
-type gateBase struct {
-	kv.Base
+// shared is the registry of gated request goroutines (one for all servers).
+type shared struct {
 	mu   sync.Mutex
-	reqs map[string]*req // by goroutine id
+	reqs map[string]*req // cluster safe point requests, by goroutine id
+	svc  map[string]*req // service safe point requests, by goroutine id
 	// service-op write fault: fail the n-th write (Save/Remove below svcPrefix) while armed
 	svcArmed  bool
 	svcWrites int
 	svcFailAt int
 }
 
+// gateBase wraps one server's kv.Base.
+type gateBase struct {
+	kv.Base
+	sh *shared
+}
+
 func (g *gateBase) lookup() *req {
 	id := gcbootsrv.GoID()
-	g.mu.Lock()
-	defer g.mu.Unlock()
-	return g.reqs[id]
+	g.sh.mu.Lock()
+	defer g.sh.mu.Unlock()
+	return g.sh.reqs[id]
+}
+
+func (g *gateBase) lookupSvc() *req {
+	id := gcbootsrv.GoID()
+	g.sh.mu.Lock()
+	defer g.sh.mu.Unlock()
+	return g.sh.svc[id]
 }
 
 func (g *gateBase) Load(key string) (string, error) {
@@ -104,6 +129,15 @@ func (g *gateBase) Load(key string) (string, error) {
 		}
 	}
 	return g.Base.Load(key)
+}
+
+// ownSave: the Save is the handler's own SaveServiceGCSafePoint call, not one made inside
+// LoadMinServiceGCSafePoint (gc_worker repair / initialisation).
+func ownSave() bool {
+	buf := make([]byte, 16<<10)
+	n := runtime.Stack(buf, false)
+	st := string(buf[:n])
+	return !strings.Contains(st, "LoadMinServiceGCSafePoint") && !strings.Contains(st, "initServiceGCSafePointForGCWorker")
 }
 
 func (g *gateBase) Save(key, value string) error {
@@ -124,6 +158,14 @@ func (g *gateBase) Save(key, value string) error {
 			}
 		}
 	}
+	if strings.HasPrefix(key, svcPrefix+"/") {
+		if r := g.lookupSvc(); r != nil && ownSave() {
+			r.set("S")
+			r.parked <- "S"
+			<-r.release
+			r.set("run")
+		}
+	}
 	if g.svcWrite(key) {
 		return errInjected
 	}
@@ -138,31 +180,51 @@ func (g *gateBase) Remove(key string) error {
 }
 
 func (g *gateBase) svcWrite(key string) bool {
-	g.mu.Lock()
-	defer g.mu.Unlock()
-	if !g.svcArmed || !strings.HasPrefix(key, svcPrefix) {
+	g.sh.mu.Lock()
+	defer g.sh.mu.Unlock()
+	if !g.sh.svcArmed || !strings.HasPrefix(key, svcPrefix) {
 		return false
 	}
-	g.svcWrites++
-	return g.svcWrites == g.svcFailAt
+	g.sh.svcWrites++
+	return g.sh.svcWrites == g.sh.svcFailAt
 }
 
 type world struct {
-	srv    *gcbootsrv.Srv
-	gate   *gateBase
+	srvs   []*gcbootsrv.Srv
+	cl     *gcbootsrv.Cluster // nil: one stand-alone server
+	raw    *clientv3.Client
+	cur    int // index of the serving leader
+	sh     *shared
 	root   string
 	hdr    *pdpb.RequestHeader
-	reqs   []*req
+	reqs   []*req  // gated cluster safe point requests of the sequence
+	sreqs  []*req  // gated service safe point requests of the sequence
+	sargs  []int64 // `now` of the gated service requests
+	leaked []chan string
 	nowSec int64 // current op time (seconds after baseSec) the TSO has been moved to
+	two    bool  // the current sequence is a `reset 2` sequence
+	big    uint64
 }
 
 func (w *world) ctx() context.Context { return context.Background() }
 
-func newWorld() *world {
-	srv := gcbootsrv.Start(nil)
-	s := srv.S
-	w := &world{srv: srv, root: path.Join("/pd", strconv.FormatUint(s.ClusterID(), 10)),
-		hdr: &pdpb.RequestHeader{ClusterId: s.ClusterID()}, nowSec: -1}
+func (w *world) S() *server.Server { return w.srvs[w.cur].S }
+
+func newWorld(two bool) *world {
+	w := &world{nowSec: -1, sh: &shared{reqs: map[string]*req{}, svc: map[string]*req{}}}
+	if two {
+		w.cl = gcbootsrv.StartCluster(2, nil)
+		w.srvs = w.cl.Srvs
+		w.raw = w.cl.Raw
+		w.cur = w.cl.WaitLeader()
+	} else {
+		srv := gcbootsrv.Start(nil)
+		w.srvs = []*gcbootsrv.Srv{srv}
+		w.raw = srv.Raw
+	}
+	s := w.S()
+	w.root = path.Join("/pd", strconv.FormatUint(s.ClusterID(), 10))
+	w.hdr = &pdpb.RequestHeader{ClusterId: s.ClusterID()}
 	_, err := s.Bootstrap(w.ctx(), &pdpb.BootstrapRequest{
 		Header: w.hdr,
 		Store:  &metapb.Store{Id: 1, Address: "mock://1"},
@@ -175,9 +237,81 @@ func newWorld() *world {
 	if s.GetRaftCluster() == nil {
 		panic("cluster not running after bootstrap")
 	}
-	w.gate = &gateBase{Base: s.GetStorage().Base, reqs: map[string]*req{}}
-	s.GetStorage().Base = w.gate
+	for _, sv := range w.srvs {
+		sv.S.GetStorage().Base = &gateBase{Base: sv.S.GetStorage().Base, sh: w.sh}
+	}
 	return w
+}
+
+func (w *world) stop() {
+	if w.cl != nil {
+		w.cl.Stop()
+	} else {
+		w.srvs[0].Stop()
+	}
+}
+
+// leadTo moves the PD leadership to member m and waits until it serves (raft cluster running) and the
+// former leader has stepped down.
+func (w *world) leadTo(m int) bool {
+	deadline := time.Now().Add(20 * time.Second)
+	for time.Now().Before(deadline) {
+		l := w.cl.Leader()
+		if l == m {
+			o := w.srvs[1-m].S
+			if !o.GetMember().IsLeader() && o.GetRaftCluster() == nil && w.srvs[m].S.GetRaftCluster() != nil {
+				w.cur = m
+				return true
+			}
+		} else if l >= 0 {
+			s := w.srvs[l].S
+			_ = s.GetMember().ResignEtcdLeader(w.ctx(), s.Name(), w.srvs[m].S.Name())
+		}
+		time.Sleep(5 * time.Millisecond)
+	}
+	return false
+}
+
+// bounded runs a synchronous handler call in a goroutine: its result, or `blocked` once the goroutine sits
+// in a mutex of the handler `inFunc`, or `stuck` after 10 s.  A call that is given up is remembered and
+// awaited (bounded) at the next reset.
+func (w *world) bounded(inFunc string, fn func() string) string {
+	done := make(chan string, 1)
+	idc := make(chan string, 1)
+	go func() {
+		idc <- gcbootsrv.GoID()
+		done <- fn()
+	}()
+	id := <-idc
+	deadline := time.Now().Add(10 * time.Second)
+	blockedSeen := 0
+	for spin := 0; ; spin++ {
+		select {
+		case r := <-done:
+			return r
+		default:
+		}
+		if spin > 20 && inFunc != "" {
+			if gcbootsrv.BlockedOnMutex(id, inFunc) {
+				blockedSeen++
+				if blockedSeen >= 3 {
+					w.leaked = append(w.leaked, done)
+					return "blocked"
+				}
+			} else {
+				blockedSeen = 0
+			}
+		}
+		if time.Now().After(deadline) {
+			w.leaked = append(w.leaked, done)
+			return "stuck"
+		}
+		if spin < 100 {
+			time.Sleep(50 * time.Microsecond)
+		} else {
+			time.Sleep(time.Millisecond)
+		}
+	}
 }
 
 // setNow moves the TSO to baseSec+sec (forward only).
@@ -188,7 +322,7 @@ func (w *world) setNow(sec int64) bool {
 	if sec == w.nowSec {
 		return true
 	}
-	a, err := w.srv.S.GetTSOAllocatorManager().GetAllocator(tso.GlobalDCLocation)
+	a, err := w.S().GetTSOAllocatorManager().GetAllocator(tso.GlobalDCLocation)
 	if err != nil {
 		panic(err)
 	}
@@ -202,7 +336,7 @@ func (w *world) setNow(sec int64) bool {
 
 // tsoSec reads the TSO's physical second (through the allocator, as the handler does).
 func (w *world) tsoSec() int64 {
-	ts, err := w.srv.S.GetTSOAllocatorManager().HandleTSORequest(tso.GlobalDCLocation, 1)
+	ts, err := w.S().GetTSOAllocatorManager().HandleTSORequest(tso.GlobalDCLocation, 1)
 	if err != nil {
 		panic(err)
 	}
@@ -211,7 +345,7 @@ func (w *world) tsoSec() int64 {
 }
 
 func (w *world) stored() string {
-	resp, err := w.srv.Raw.Get(w.ctx(), path.Join(w.root, gcKey))
+	resp, err := w.raw.Get(w.ctx(), path.Join(w.root, gcKey))
 	if err != nil {
 		panic(err)
 	}
@@ -250,7 +384,7 @@ func idArg(s string) string {
 // `<id>:<sp>:<exp>` when key and id agree.
 func (w *world) table() string {
 	prefix := path.Join(w.root, svcPrefix) + "/"
-	resp, err := w.srv.Raw.Get(w.ctx(), prefix, clientv3.WithPrefix(),
+	resp, err := w.raw.Get(w.ctx(), prefix, clientv3.WithPrefix(),
 		clientv3.WithSort(clientv3.SortByKey, clientv3.SortAscend))
 	if err != nil {
 		panic(err)
@@ -285,16 +419,40 @@ func (w *world) states() string {
 			out = append(out, fmt.Sprintf("%dB", r.idx))
 		}
 	}
+	for _, r := range w.sreqs {
+		switch st := r.get(); {
+		case st == "S":
+			out = append(out, fmt.Sprintf("s%dS", r.idx))
+		case st == "run":
+			out = append(out, fmt.Sprintf("s%dB", r.idx))
+		case st == "done" && !r.reported:
+			out = append(out, fmt.Sprintf("s%dD", r.idx))
+		}
+	}
 	if len(out) == 0 {
 		return "-"
 	}
 	return strings.Join(out, ",")
 }
 
-func (w *world) live() int {
+func liveOf(l []*req) int {
 	n := 0
-	for _, r := range w.reqs {
+	for _, r := range l {
 		if r.get() != "done" {
+			n++
+		}
+	}
+	return n
+}
+
+func (w *world) live() int    { return liveOf(w.reqs) }
+func (w *world) svcLive() int { return liveOf(w.sreqs) }
+
+// svcOpen: gated service requests that are not finished or whose answer has not been reported yet
+func (w *world) svcOpen() int {
+	n := 0
+	for _, r := range w.sreqs {
+		if r.get() != "done" || !r.reported {
 			n++
 		}
 	}
@@ -322,7 +480,7 @@ func errKind(err error) string {
 
 // update runs the real handler once.
 func (w *world) update(v uint64) string {
-	resp, err := w.srv.S.UpdateGCSafePoint(w.ctx(), &pdpb.UpdateGCSafePointRequest{Header: w.hdr, SafePoint: v})
+	resp, err := w.S().UpdateGCSafePoint(w.ctx(), &pdpb.UpdateGCSafePointRequest{Header: w.hdr, SafePoint: v})
 	if err != nil {
 		return errKind(err)
 	}
@@ -332,36 +490,43 @@ func (w *world) update(v uint64) string {
 	return fmt.Sprintf("done %d", resp.GetNewSafePoint())
 }
 
-// settle waits until every live request is parked at a gate, finished, or blocked on the handler's
-// mutex while some other request is parked (i.e. can hold that mutex).  Returns false on timeout.
-func (w *world) settle() bool {
-	deadline := time.Now().Add(20 * time.Second)
-	for spin := 0; ; spin++ {
-		parked, running := 0, 0
-		stable := true
-		for _, r := range w.reqs {
-			// drain events
-			select {
-			case <-r.parked:
-			default:
-			}
-			select {
-			case res := <-r.done:
-				r.result = res
-				r.set("done")
-			default:
-			}
-			switch r.get() {
-			case "L", "S":
-				parked++
-			case "run":
-				running++
-				if !gcbootsrv.BlockedOnMutex(r.goid, "UpdateGCSafePoint") {
-					stable = false
-				}
+// settleGroup: one pass over a group of gated requests of handler `inFunc`; returns (stable, parked, running)
+func settleGroup(l []*req, inFunc string) (bool, int, int) {
+	parked, running := 0, 0
+	stable := true
+	for _, r := range l {
+		select {
+		case <-r.parked:
+		default:
+		}
+		select {
+		case res := <-r.done:
+			r.result = res
+			r.set("done")
+		default:
+		}
+		switch r.get() {
+		case "L", "S":
+			parked++
+		case "run":
+			running++
+			if !gcbootsrv.BlockedOnMutex(r.goid, inFunc) {
+				stable = false
 			}
 		}
-		if stable && (running == 0 || parked > 0) {
+	}
+	return stable, parked, running
+}
+
+// settle waits until every live request is parked at a gate, finished, or blocked on the handler's
+// mutex while some other request of the same handler is parked (i.e. can hold that mutex).  Returns false
+// when that does not happen within 5 s.
+func (w *world) settle() bool {
+	deadline := time.Now().Add(5 * time.Second)
+	for spin := 0; ; spin++ {
+		s1, p1, r1 := settleGroup(w.reqs, "UpdateGCSafePoint")
+		s2, p2, r2 := settleGroup(w.sreqs, "UpdateServiceGCSafePoint")
+		if s1 && (r1 == 0 || p1 > 0) && s2 && (r2 == 0 || p2 > 0) {
 			return true
 		}
 		if time.Now().After(deadline) {
@@ -375,39 +540,86 @@ func (w *world) settle() bool {
 	}
 }
 
-// releaseAndWait lets a parked request continue and waits until its goroutine has left the gate.
-func (w *world) releaseAndWait(r *req, fault string) {
+// releaseAndWait lets a parked request continue and waits (bounded) until its goroutine has left the gate.
+func (w *world) releaseAndWait(r *req, fault string) bool {
 	_, g0 := r.snap()
 	r.release <- fault
-	for k := 0; k < 2000000; k++ {
+	deadline := time.Now().Add(5 * time.Second)
+	for time.Now().Before(deadline) {
 		if st, g := r.snap(); g != g0 || st == "run" {
-			return
+			return true
 		}
 		time.Sleep(10 * time.Microsecond)
 	}
-	panic("released request did not leave its gate")
+	return false
 }
 
-func (w *world) reset() {
-	// finish everything that is still pending
-	for round := 0; round < 100 && w.live() > 0; round++ {
-		for _, r := range w.reqs {
-			if st := r.get(); st == "L" || st == "S" {
-				w.releaseAndWait(r, "before")
+func (w *world) reset(two bool) string {
+	// finish everything that is still pending (bounded)
+	for round := 0; round < 12 && w.live()+w.svcLive() > 0; round++ {
+		for _, l := range [][]*req{w.reqs, w.sreqs} {
+			for _, r := range l {
+				if st := r.get(); st == "L" || st == "S" {
+					w.releaseAndWait(r, "before")
+				}
 			}
 		}
 		w.settle()
 	}
-	if w.live() > 0 {
-		panic("reset: requests still pending")
+	for _, c := range w.leaked {
+		select {
+		case <-c:
+		case <-time.After(3 * time.Second):
+		}
 	}
-	w.gate.mu.Lock()
-	w.gate.reqs = map[string]*req{}
-	w.gate.mu.Unlock()
-	w.reqs = nil
-	if _, err := w.srv.Raw.Delete(w.ctx(), path.Join(w.root, "gc")+"/", clientv3.WithPrefix()); err != nil {
+	w.leaked = nil
+	out := "ok"
+	if w.live()+w.svcLive() > 0 {
+		// requests that never come back (a lock that is not released any more): give them up
+		out = "stuck"
+	}
+	w.sh.mu.Lock()
+	w.sh.reqs = map[string]*req{}
+	w.sh.svc = map[string]*req{}
+	w.sh.mu.Unlock()
+	w.reqs, w.sreqs, w.sargs = nil, nil, nil
+	w.two = two
+	if _, err := w.raw.Delete(w.ctx(), path.Join(w.root, "gc")+"/", clientv3.WithPrefix()); err != nil {
 		panic(err)
 	}
+	return out
+}
+
+// chainID: ids such that each of a triple extends the one before: k000, k000-1, k000-1x, k001, ...
+func chainID(j int) string {
+	b := fmt.Sprintf("k%03d", j/3)
+	switch j % 3 {
+	case 1:
+		return b + "-1"
+	case 2:
+		return b + "-1x"
+	}
+	return b
+}
+
+func (w *world) uspCall(svc string, ttl int64, sp uint64, now int64) string {
+	resp, err := w.S().UpdateServiceGCSafePoint(w.ctx(), &pdpb.UpdateServiceGCSafePointRequest{
+		Header: w.hdr, ServiceId: []byte(svc), TTL: ttl, SafePoint: sp})
+	if err != nil {
+		return errKind(err)
+	}
+	if resp.GetHeader().GetError() != nil {
+		return "err-header:" + resp.GetHeader().GetError().GetType().String()
+	}
+	ttlOut := strconv.FormatInt(resp.GetTTL(), 10)
+	if resp.GetTTL() == math.MaxInt64-(baseSec+now) {
+		ttlOut = "inf"
+	}
+	return fmt.Sprintf("ok %s %s %d", idStr(string(resp.GetServiceId())), ttlOut, resp.GetMinSafePoint())
+}
+
+func newReq(idx int, v uint64) *req {
+	return &req{idx: idx, val: v, state: "run", parked: make(chan string, 1), release: make(chan string, 1), done: make(chan string, 1)}
 }
 
 func (w *world) exec(op string) string {
@@ -417,7 +629,20 @@ func (w *world) exec(op string) string {
 	i64 := func(s string) (int64, bool) { n, err := strconv.ParseInt(s, 10, 64); return n, err == nil }
 	switch {
 	case len(f) == 1 && f[0] == "reset":
-		w.reset()
+		return w.reset(false)
+	case len(f) == 2 && f[0] == "reset" && f[1] == "2":
+		if len(w.srvs) < 2 {
+			return bad
+		}
+		return w.reset(true)
+	case len(f) == 2 && f[0] == "lead":
+		m, ok := i64(f[1])
+		if !ok || !w.two || m < 0 || int(m) >= len(w.srvs) || w.live() > 0 {
+			return bad
+		}
+		if !w.leadTo(int(m)) {
+			return "stuck"
+		}
 		return "ok"
 	case len(f) == 3 && f[0] == "upd":
 		// gated request: parks before Load and before Save
@@ -426,14 +651,14 @@ func (w *world) exec(op string) string {
 		if !ok1 || !ok2 || int(i) != len(w.reqs) {
 			return bad
 		}
-		r := &req{idx: int(i), val: v, state: "run", parked: make(chan string, 1), release: make(chan string, 1), done: make(chan string, 1)}
+		r := newReq(int(i), v)
 		w.reqs = append(w.reqs, r)
 		ready := make(chan struct{})
 		go func() {
 			r.goid = gcbootsrv.GoID()
-			w.gate.mu.Lock()
-			w.gate.reqs[r.goid] = r
-			w.gate.mu.Unlock()
+			w.sh.mu.Lock()
+			w.sh.reqs[r.goid] = r
+			w.sh.mu.Unlock()
 			close(ready)
 			r.done <- w.update(v)
 		}()
@@ -456,7 +681,9 @@ func (w *world) exec(op string) string {
 		case "done":
 			return bad
 		case "L", "S":
-			w.releaseAndWait(r, fault)
+			if !w.releaseAndWait(r, fault) {
+				return "stuck"
+			}
 		}
 		if !w.settle() {
 			return "stuck"
@@ -467,13 +694,18 @@ func (w *world) exec(op string) string {
 		if !ok || w.live() > 0 {
 			return bad
 		}
-		return w.update(v)
+		return w.bounded("UpdateGCSafePoint", func() string { return w.update(v) })
 	case len(f) == 1 && f[0] == "get":
-		resp, err := w.srv.S.GetGCSafePoint(w.ctx(), &pdpb.GetGCSafePointRequest{Header: w.hdr})
-		if err != nil {
-			return errKind(err)
-		}
-		return fmt.Sprintf("ok %d", resp.GetSafePoint())
+		return w.bounded("GetGCSafePoint", func() string {
+			resp, err := w.S().GetGCSafePoint(w.ctx(), &pdpb.GetGCSafePointRequest{Header: w.hdr})
+			if err != nil {
+				return errKind(err)
+			}
+			if resp.GetHeader().GetError() != nil {
+				return "err-header:" + resp.GetHeader().GetError().GetType().String()
+			}
+			return fmt.Sprintf("ok %d", resp.GetSafePoint())
+		})
 	case len(f) >= 2 && f[0] == "burst":
 		if w.live() > 0 {
 			return bad
@@ -486,21 +718,23 @@ func (w *world) exec(op string) string {
 			}
 			vals = append(vals, v)
 		}
-		res := make([]string, len(vals))
-		var wg sync.WaitGroup
-		start := make(chan struct{})
-		for k, v := range vals {
-			wg.Add(1)
-			go func(k int, v uint64) {
-				defer wg.Done()
-				<-start
-				r := w.update(v)
-				res[k] = strings.TrimPrefix(r, "done ")
-			}(k, v)
-		}
-		close(start)
-		wg.Wait()
-		return "acks " + strings.Join(res, " ")
+		return w.bounded("", func() string {
+			res := make([]string, len(vals))
+			var wg sync.WaitGroup
+			start := make(chan struct{})
+			for k, v := range vals {
+				wg.Add(1)
+				go func(k int, v uint64) {
+					defer wg.Done()
+					<-start
+					r := w.update(v)
+					res[k] = strings.TrimPrefix(r, "done ")
+				}(k, v)
+			}
+			close(start)
+			wg.Wait()
+			return "acks " + strings.Join(res, " ")
+		})
 	case (len(f) == 5 || len(f) == 6) && f[0] == "usp":
 		// usp <svc> <ttl> <sp> <now> [failing-write]
 		ttl, ok1 := i64(f[2])
@@ -511,34 +745,77 @@ func (w *world) exec(op string) string {
 		if len(f) == 6 {
 			failAt, ok4 = i64(f[5])
 		}
-		if !ok1 || !ok2 || !ok3 || !ok4 || now < 0 || !w.setNow(now) {
+		if !ok1 || !ok2 || !ok3 || !ok4 || now < 0 || w.two || w.svcOpen() > 0 || !w.setNow(now) {
 			return bad
 		}
-		w.gate.mu.Lock()
-		w.gate.svcArmed, w.gate.svcWrites, w.gate.svcFailAt = true, 0, int(failAt)
-		w.gate.mu.Unlock()
-		resp, err := w.srv.S.UpdateServiceGCSafePoint(w.ctx(), &pdpb.UpdateServiceGCSafePointRequest{
-			Header: w.hdr, ServiceId: []byte(idArg(f[1])), TTL: ttl, SafePoint: sp})
-		w.gate.mu.Lock()
-		w.gate.svcArmed = false
-		w.gate.mu.Unlock()
+		w.sh.mu.Lock()
+		w.sh.svcArmed, w.sh.svcWrites, w.sh.svcFailAt = true, 0, int(failAt)
+		w.sh.mu.Unlock()
+		out := w.bounded("UpdateServiceGCSafePoint", func() string { return w.uspCall(idArg(f[1]), ttl, sp, now) })
+		w.sh.mu.Lock()
+		w.sh.svcArmed = false
+		w.sh.mu.Unlock()
+		if out == "blocked" || out == "stuck" {
+			return out
+		}
 		if got := w.tsoSec(); got != now {
 			return fmt.Sprintf("clock-drift %d", got)
 		}
-		if err != nil {
-			return errKind(err)
+		return out
+	case len(f) == 6 && f[0] == "gusp":
+		// gusp <r> <svc> <ttl> <sp> <now>: gated request, parks before the handler's own save
+		i, ok0 := i64(f[1])
+		ttl, ok1 := i64(f[3])
+		sp, ok2 := u64(f[4])
+		now, ok3 := i64(f[5])
+		if !ok0 || !ok1 || !ok2 || !ok3 || now < 0 || w.two || int(i) != len(w.sreqs) ||
+			(w.svcOpen() > 0 && now != w.nowSec) || !w.setNow(now) {
+			return bad
 		}
-		if resp.GetHeader().GetError() != nil {
-			return "err-header:" + resp.GetHeader().GetError().GetType().String()
+		r := newReq(int(i), sp)
+		w.sreqs = append(w.sreqs, r)
+		w.sargs = append(w.sargs, now)
+		ready := make(chan struct{})
+		svc := idArg(f[2])
+		go func() {
+			r.goid = gcbootsrv.GoID()
+			w.sh.mu.Lock()
+			w.sh.svc[r.goid] = r
+			w.sh.mu.Unlock()
+			close(ready)
+			r.done <- w.uspCall(svc, ttl, sp, now)
+		}()
+		<-ready
+		if !w.settle() {
+			return "stuck"
 		}
-		ttlOut := strconv.FormatInt(resp.GetTTL(), 10)
-		if resp.GetTTL() == math.MaxInt64-(baseSec+now) {
-			ttlOut = "inf"
+		return w.sreqOut(r)
+	case len(f) == 2 && f[0] == "sstep":
+		i, ok := i64(f[1])
+		if !ok || i < 0 || int(i) >= len(w.sreqs) {
+			return bad
 		}
-		return fmt.Sprintf("ok %s %s %d", idStr(string(resp.GetServiceId())), ttlOut, resp.GetMinSafePoint())
+		r := w.sreqs[i]
+		switch r.get() {
+		case "done":
+			if r.reported {
+				return bad
+			}
+		case "S":
+			if !w.releaseAndWait(r, "none") {
+				return "stuck"
+			}
+		}
+		if !w.settle() {
+			return "stuck"
+		}
+		return w.sreqOut(r)
 	case len(f) == 2 && f[0] == "del":
 		// what the HTTP API DELETE /gc/safepoint/{service_id} does
-		if err := w.srv.S.GetStorage().RemoveServiceGCSafePoint(idArg(f[1])); err != nil {
+		if w.two || w.svcOpen() > 0 {
+			return bad
+		}
+		if err := w.S().GetStorage().RemoveServiceGCSafePoint(idArg(f[1])); err != nil {
 			return errKind(err)
 		}
 		return "ok"
@@ -551,17 +828,60 @@ func (w *world) exec(op string) string {
 			exp, ok2 = i64(f[3])
 			exp += baseSec
 		}
-		if !ok1 || !ok2 || idArg(f[1]) == "" ||
+		if !ok1 || !ok2 || idArg(f[1]) == "" || w.two || w.svcOpen() > 0 ||
 			path.Join(svcPrefix, idArg(f[1])) != svcPrefix+"/"+idArg(f[1]) {
 			return bad
 		}
-		b, _ := json.Marshal(&core.ServiceSafePoint{ServiceID: idArg(f[1]), ExpiredAt: exp, SafePoint: sp})
-		if _, err := w.srv.Raw.Put(w.ctx(), path.Join(w.root, svcPrefix, idArg(f[1])), string(b)); err != nil {
-			panic(err)
+		w.rawPut(idArg(f[1]), sp, exp)
+		return "ok"
+	case len(f) == 4 && f[0] == "bulk":
+		// bulk <n> <sp0> <exp|inf>: n records with the ids k000, k000-1, k000-1x, k001, ... (each of a
+		// triple extends the one before), safe point sp0 + (37 j mod 101), one expiry
+		n, ok0 := i64(f[1])
+		sp0, ok1 := u64(f[2])
+		exp := int64(math.MaxInt64)
+		ok2 := true
+		if f[3] != "inf" {
+			exp, ok2 = i64(f[3])
+			exp += baseSec
+		}
+		if !ok0 || !ok1 || !ok2 || n < 0 || n > 600 || sp0 > 1<<40 || w.two || w.svcOpen() > 0 {
+			return bad
+		}
+		for j := 0; j < int(n); j++ {
+			w.rawPut(chainID(j), sp0+uint64(j*37%101), exp)
 		}
 		return "ok"
+	case len(f) == 1 && f[0] == "list":
+		// GetAllServiceGCSafePoints, as the HTTP API GET /gc/safepoint uses it
+		if w.two || w.svcOpen() > 0 {
+			return bad
+		}
+		l, err := w.S().GetStorage().GetAllServiceGCSafePoints()
+		if err != nil {
+			return errKind(err)
+		}
+		return fmt.Sprintf("list %d", len(l))
 	}
 	return bad
+}
+
+func (w *world) rawPut(id string, sp uint64, exp int64) {
+	b, _ := json.Marshal(&core.ServiceSafePoint{ServiceID: id, ExpiredAt: exp, SafePoint: sp})
+	if _, err := w.raw.Put(w.ctx(), path.Join(w.root, svcPrefix, id), string(b)); err != nil {
+		panic(err)
+	}
+}
+
+func (w *world) sreqOut(r *req) string {
+	switch st := r.get(); st {
+	case "S":
+		return "parked-save"
+	case "done":
+		r.reported = true
+		return r.result
+	}
+	return "blocked"
 }
 
 func (w *world) reqOut(r *req) string {
@@ -576,9 +896,14 @@ func (w *world) reqOut(r *req) string {
 	return "blocked"
 }
 
+var traceMu sync.Mutex
+
 func (w *world) run(t *trace.W, op string) string {
 	out := w.exec(op)
-	t.Line(op, fmt.Sprintf("%s @%s r=%s t=%s", out, w.stored(), w.states(), w.table()))
+	line := fmt.Sprintf("%s @%s r=%s t=%s", out, w.stored(), w.states(), w.table())
+	traceMu.Lock()
+	t.Line(op, line)
+	traceMu.Unlock()
 	return out
 }
 
@@ -615,7 +940,7 @@ func schedules(n int) [][]int {
 // genSchedule replays one enumerated interleaving: `eager` starts every request first, otherwise a
 // request is started right before its first storage access.
 func genSchedule(w *world, t *trace.W, sched []int, vals []uint64, eager bool, pre uint64) {
-	w.run(t, "reset")
+	w.run(t, w.resetOp())
 	if pre > 0 {
 		w.run(t, fmt.Sprintf("set %d", pre))
 	}
@@ -682,7 +1007,7 @@ func randVal(r *rng.R) uint64 {
 
 // genCluster: random gated histories of 2-5 requests with faults, sets, gets and bursts.
 func genCluster(w *world, t *trace.W, r *rng.R, maxOps int) {
-	w.run(t, "reset")
+	w.run(t, w.resetOp())
 	if r.Bool(1, 2) {
 		w.run(t, fmt.Sprintf("set %d", randVal(r)))
 	}
@@ -790,6 +1115,181 @@ func genService(w *world, t *trace.W, r *rng.R, maxOps int, nowp *int64) {
 	}
 }
 
+// resetOp: sequences of the two-server world start with `reset 2`
+func (w *world) resetOp() string {
+	if len(w.srvs) > 1 {
+		return "reset 2"
+	}
+	return "reset"
+}
+
+// genLead: the leadership moves back and forth between two servers while the safe point advances; every
+// leader is asked to read, to advance and to replay a slightly stale value.  Values grow from sequence to
+// sequence (w.big) so that nothing a server may remember from an earlier sequence is ahead of them.
+func genLead(w *world, t *trace.W, r *rng.R, maxOps int) {
+	w.run(t, "reset 2")
+	w.big += 100000
+	v := w.big
+	hi := v // largest value sent so far
+	if r.Bool(1, 3) {
+		// the plain scenario: A acks, B acks more, back on A a stale value arrives
+		a := w.cur
+		w.run(t, fmt.Sprintf("set %d", v+100))
+		w.run(t, "get")
+		w.run(t, fmt.Sprintf("lead %d", 1-a))
+		w.run(t, "get")
+		w.run(t, fmt.Sprintf("set %d", v+200))
+		w.run(t, "get")
+		w.run(t, fmt.Sprintf("lead %d", a))
+		w.run(t, "get")
+		w.run(t, fmt.Sprintf("set %d", v+150))
+		w.run(t, "get")
+		w.run(t, fmt.Sprintf("lead %d", 1-a))
+		w.run(t, "get")
+		return
+	}
+	ops := r.Range(6, maxOps)
+	for k := 0; k < ops; k++ {
+		switch r.Pick(30, 30, 12, 12, 16) {
+		case 0:
+			// advance
+			hi += uint64(r.Range(1, 50))
+			w.run(t, fmt.Sprintf("set %d", hi))
+		case 1:
+			w.run(t, "get")
+		case 2:
+			if w.live() == 0 {
+				w.run(t, fmt.Sprintf("lead %d", r.Intn(2)))
+			}
+		case 3:
+			// a stale or repeated value
+			w.run(t, fmt.Sprintf("set %d", v+uint64(r.Range(0, int(hi-v)+1))))
+		case 4:
+			if w.live() == 0 {
+				n := r.Range(2, 5)
+				vs := make([]string, n)
+				for i := range vs {
+					vs[i] = strconv.FormatUint(v+uint64(r.Range(0, int(hi-v)+60)), 10)
+				}
+				w.run(t, "burst "+strings.Join(vs, " "))
+			}
+		}
+	}
+	w.run(t, "get")
+	w.run(t, fmt.Sprintf("lead %d", 1-w.cur))
+	w.run(t, "get")
+}
+
+var raceSvcs = []string{"cdc", "br", "gc_worker", "gc_worker", "a"}
+
+// genSvcRace: two or three service requests in flight at once: the first is parked before the handler's own
+// save, the others are issued meanwhile (they have to wait for it), then released in a random order.
+func genSvcRace(w *world, t *trace.W, r *rng.R, nowp *int64) {
+	w.run(t, "reset")
+	*nowp += int64(r.Range(1, 5))
+	now := *nowp
+	base := uint64(r.Range(0, 30))
+	if r.Bool(4, 5) {
+		w.run(t, fmt.Sprintf("usp gc_worker %d %d %d", int64(math.MaxInt64), base+10, now))
+	}
+	if r.Bool(1, 3) {
+		w.run(t, fmt.Sprintf("usp %s %d %d %d", raceSvcs[r.Intn(len(raceSvcs))], r.Range(5, 50), base+uint64(r.Range(10, 80)), now))
+	}
+	n := r.Range(2, 3)
+	if r.Bool(1, 4) {
+		// the directed case: a new service is admitted against the old minimum while gc_worker advances
+		w.run(t, fmt.Sprintf("gusp 0 cdc 100 %d %d", base+50, now))
+		w.run(t, fmt.Sprintf("gusp 1 gc_worker %d %d %d", int64(math.MaxInt64), base+100, now))
+		n = 2
+	} else {
+		for k := 0; k < n; k++ {
+			svc := raceSvcs[r.Intn(len(raceSvcs))]
+			ttl := int64(r.Range(5, 100))
+			if svc == "gc_worker" {
+				ttl = math.MaxInt64
+			}
+			if r.Bool(1, 10) {
+				ttl = 0
+			}
+			w.run(t, fmt.Sprintf("gusp %d %s %d %d %d", k, svc, ttl, base+uint64(r.Range(0, 120)), now))
+		}
+	}
+	for round := 0; round < 12 && w.svcOpen() > 0; round++ {
+		k := r.Intn(n)
+		q := w.sreqs[k]
+		if q.get() == "done" && q.reported {
+			continue
+		}
+		w.run(t, fmt.Sprintf("sstep %d", k))
+	}
+	for k, q := range w.sreqs {
+		for i := 0; i < 4 && !(q.get() == "done" && q.reported); i++ {
+			w.run(t, fmt.Sprintf("sstep %d", k))
+		}
+	}
+	if w.svcOpen() == 0 {
+		w.run(t, fmt.Sprintf("usp gc_worker %d %d %d", int64(math.MaxInt64), base+uint64(r.Range(0, 130)), now))
+	}
+}
+
+// sortedIDs: the ids stored now, in key order
+func (w *world) sortedIDs() []string {
+	prefix := path.Join(w.root, svcPrefix) + "/"
+	resp, err := w.raw.Get(w.ctx(), prefix, clientv3.WithPrefix(), clientv3.WithKeysOnly(),
+		clientv3.WithSort(clientv3.SortByKey, clientv3.SortAscend))
+	if err != nil {
+		panic(err)
+	}
+	var ids []string
+	for _, kvp := range resp.Kvs {
+		ids = append(ids, strings.TrimPrefix(string(kvp.Key), prefix))
+	}
+	return ids
+}
+
+// genBulk: 95-205 registrations whose ids extend one another (k017, k017-1, k017-1x), so that wherever a
+// scan is cut into pieces some piece ends on an id that the following ids extend; then the minimum, the list
+// and the pruning are observed, with the smallest safe points put right behind positions 100 and 200.
+func genBulk(w *world, t *trace.W, r *rng.R, nowp *int64) {
+	w.run(t, "reset")
+	*nowp += int64(r.Range(1, 5))
+	now := *nowp
+	sp0 := uint64(r.Range(50, 500))
+	w.run(t, fmt.Sprintf("usp gc_worker %d %d %d", int64(math.MaxInt64), sp0, now))
+	for k, shift := 0, r.Intn(3); k < shift; k++ {
+		w.run(t, fmt.Sprintf("raw a%d %d inf", k, sp0+200))
+	}
+	n := r.Range(95, 205)
+	if r.Bool(1, 2) {
+		n = []int{98, 99, 100, 101, 102, 198, 199, 200, 201, 202, 205}[r.Intn(11)]
+	}
+	ttl := int64(r.Range(20, 60))
+	exp := strconv.FormatInt(now+ttl, 10)
+	if r.Bool(1, 4) {
+		exp = "inf"
+	}
+	w.run(t, fmt.Sprintf("bulk %d %d %s", n, sp0, exp))
+	// the records right behind a multiple of 100 get the smallest safe points
+	ids := w.sortedIDs()
+	low := uint64(1)
+	for _, pos := range []int{100, 101, 200, 201} {
+		if pos < len(ids) && ids[pos] != "gc_worker" {
+			w.run(t, fmt.Sprintf("raw %s %d %s", ids[pos], low, exp))
+			low++
+		}
+	}
+	w.run(t, fmt.Sprintf("usp gc_worker %d %d %d", int64(math.MaxInt64), sp0+uint64(r.Range(0, 20)), now))
+	w.run(t, "list")
+	w.run(t, fmt.Sprintf("usp zz %d %d %d", r.Range(5, 50), sp0+uint64(r.Range(0, 300)), now+int64(r.Range(0, 3))))
+	*nowp = now + 3
+	if exp != "inf" {
+		// everything bulk-registered expires
+		*nowp = now + ttl + int64(r.Range(1, 10))
+		w.run(t, fmt.Sprintf("usp gc_worker %d %d %d", int64(math.MaxInt64), sp0+30, *nowp))
+		w.run(t, "list")
+	}
+}
+
 func main() {
 	out := flag.String("out", "-", "trace file")
 	replay := flag.String("replay", "", "ops file to replay instead of generating")
@@ -797,29 +1297,67 @@ func main() {
 	maxOps := flag.Int("len", 30, "max ops per sequence")
 	stream := flag.Uint64("stream", 0, "PRNG stream")
 	streams := flag.Uint64("streams", 1, "number of streams the enumerated schedules are divided among")
+	maxSec := flag.Int("maxsec", 40, "wall-clock budget of the run: the trace written so far is kept")
 	flag.Parse()
 
-	w := newWorld()
-	defer w.srv.Stop()
-	t := trace.Create(*out)
-	defer t.Close()
+	var ops []string
+	two := false
 	if *replay != "" {
-		for _, op := range trace.ReadOps(*replay) {
+		ops = trace.ReadOps(*replay)
+		for _, op := range ops {
+			if op == "reset 2" {
+				two = true
+			}
+		}
+	} else {
+		// the last stream works on two servers and moves the leadership
+		two = *streams > 1 && *stream%*streams == *streams-1
+	}
+	t := trace.Create(*out)
+	time.AfterFunc(time.Duration(*maxSec)*time.Second, func() {
+		traceMu.Lock()
+		t.Comment("wall-clock budget used up")
+		t.Close()
+		os.Exit(0)
+	})
+	w := newWorld(two)
+	finish := func() {
+		traceMu.Lock()
+		t.Close()
+		traceMu.Unlock()
+		done := make(chan struct{})
+		go func() { w.reset(false); w.stop(); close(done) }()
+		select {
+		case <-done:
+		case <-time.After(10 * time.Second):
+		}
+		os.Exit(0)
+	}
+	if *replay != "" {
+		for _, op := range ops {
 			w.run(t, op)
 		}
-		w.reset()
-		return
+		finish()
 	}
 	r := rng.FromEnv(*stream)
+	w.big = (uint64(*stream) + 1) * 1000000000
 	// 1. every interleaving of <= 3 requests at Load/Save granularity, this stream's share
 	cnt := uint64(0)
+	// the enumerated schedules are divided among the one-server streams (a two-member etcd is much slower)
+	share, mine := *streams, *stream%*streams
+	if *streams > 1 {
+		share = *streams - 1
+		if two {
+			mine = share // none
+		}
+	}
 	vals3 := [][]uint64{{10, 20, 30}, {30, 20, 10}, {20, 30, 10}, {20, 10, 20}}
 	vals2 := [][]uint64{{10, 20}, {20, 10}, {20, 20}}
 	for _, eager := range []bool{true, false} {
 		for _, s := range schedules(2) {
 			for _, v := range vals2 {
 				for _, pre := range []uint64{0, 15} {
-					if cnt%*streams == *stream%*streams {
+					if cnt%share == mine {
 						genSchedule(w, t, s, v, eager, pre)
 					}
 					cnt++
@@ -828,7 +1366,7 @@ func main() {
 		}
 		for _, s := range schedules(3) {
 			v := vals3[int(cnt)%len(vals3)]
-			if cnt%*streams == *stream%*streams {
+			if cnt%share == mine {
 				genSchedule(w, t, s, v, eager, 0)
 			}
 			cnt++
@@ -837,9 +1375,20 @@ func main() {
 	// 2. random histories
 	now := int64(0)
 	for s := 0; s < *n; s++ {
+		if two {
+			// leader changes cost ~0.3 s each: a third of the sequences
+			if s%3 == 0 {
+				genCluster(w, t, r, *maxOps)
+				genLead(w, t, r, *maxOps/2+4)
+			}
+			continue
+		}
 		genCluster(w, t, r, *maxOps)
 		genService(w, t, r, *maxOps, &now)
+		genSvcRace(w, t, r, &now)
+		if s%12 == 0 {
+			genBulk(w, t, r, &now)
+		}
 	}
-	w.reset()
-	_ = sort.Strings
+	finish()
 }
